@@ -799,54 +799,31 @@ pub fn run(ctx: Ctx) -> ! {
         ctx.finish(Level::ModelChecking, "replay of one recorded history", 0, false, serde_json::Map::new(), &[]);
     }
 
-    if std::env::var("C41_BENCH").is_ok() {
-        let cfg = &world.pools[4];
-        let m = PoolMachine { root: world.root.clone(), cfg: cfg.clone(), acct: world.acct.clone(), alphabet: alphabet(cfg, true), infos: Mutex::new(BTreeMap::new()), probes: AtomicU64::new(0) };
-        let t = std::time::Instant::now();
-        let mut st = m.init();
-        println!("init {:?}", t.elapsed());
-        let t = std::time::Instant::now();
-        for _ in 0..50 { let _s = st.sim.create_snapshot(); }
-        println!("snapshot x50 {:?}", t.elapsed());
-        let snap = st.sim.create_snapshot();
-        let t = std::time::Instant::now();
-        for _ in 0..50 { let _s = sim_from(&snap); }
-        println!("sim_from x50 {:?}", t.elapsed());
-        let t = std::time::Instant::now();
-        for _ in 0..50 { let _o = observe(&mut st.sim, &m.cfg, &m.acct); }
-        println!("observe x50 {:?}", t.elapsed());
-        let t = std::time::Instant::now();
-        for _ in 0..50 { let _ = m.step(&mut st, &m.alphabet[0]); }
-        println!("step(contribute, not live) x50 {:?}", t.elapsed());
-        st.live.set(true);
-        let t = std::time::Instant::now();
-        for _ in 0..50 { let _ = m.step(&mut st, &m.alphabet[0]); }
-        println!("step(contribute, live) x50 {:?}", t.elapsed());
-        let t = std::time::Instant::now();
-        for _ in 0..50 { let _ = m.step(&mut st, &Op::Redeem(Units::One)); }
-        println!("step(redeem) x50 {:?}", t.elapsed());
-        std::process::exit(0);
-    }
-    // bounds: (depth for one-resource pools, depth for two/multi pools), wall cap for the whole run
-    let (d_one, d_multi, wall_cap) = if ctx.quick() { (3usize, 3usize, 50.0) } else { (5, 4, 1080.0) };
+    // depth bounds: quick = fixed (one-resource pools 4, two/multi 3); thorough = planned maximum (6 / 5), the
+    // depth actually explored is chosen per pool by a timed calibration so that the run fits its budget
+    let (d_one, d_multi) = if ctx.quick() { (4usize, 3usize) } else { (6, 5) };
+    let per_pool_budget = 900.0 / world.pools.len() as f64;
     let mut total = BfsStats::default();
     let mut per_pool = serde_json::Map::new();
     let mut probes = 0u64;
     let mut alph = serde_json::Map::new();
     let t0 = std::time::Instant::now();
     let mut capped_pools: Vec<String> = vec![];
-    for cfg in &world.pools {
-        let depth = if cfg.kind == Kind::One { d_one } else { d_multi };
-        let m = PoolMachine { root: world.root.clone(), cfg: cfg.clone(), acct: world.acct.clone(), alphabet: alphabet(cfg, !ctx.quick()), infos: Mutex::new(BTreeMap::new()), probes: AtomicU64::new(0) };
+    for (pool_idx, cfg) in world.pools.iter().enumerate() {
+        let planned = if cfg.kind == Kind::One { d_one } else { d_multi };
+        let mk = || PoolMachine { root: world.root.clone(), cfg: cfg.clone(), acct: world.acct.clone(), alphabet: alphabet(cfg, !ctx.quick()), infos: Mutex::new(BTreeMap::new()), probes: AtomicU64::new(0) };
+        let (depth, plan) = if ctx.quick() { (planned, json!(null)) } else { crate::plan::choose_depth(&mk(), &cfg.name, 3, planned, per_pool_budget) };
+        let m = mk();
         alph.insert(cfg.name.clone(), json!(m.alphabet.iter().map(|o| format!("{o:?}")).collect::<Vec<_>>()));
-        let remaining = (wall_cap - t0.elapsed().as_secs_f64()).max(1.0);
-        let s = bfs(&ctx, &m, &cfg.name, depth, 3_000_000, remaining);
+        // quick: every pool gets an equal share of what is left of the 52 s (a cap is only consulted between layers)
+        let wall_cap = if ctx.quick() { ((52.0 - t0.elapsed().as_secs_f64()) / (world.pools.len() - pool_idx) as f64).max(0.5) } else { 3.0 * per_pool_budget };
+        let s = bfs(&ctx, &m, &cfg.name, depth, 3_000_000, wall_cap);
         if s.capped {
             capped_pools.push(format!("{} (completed depth {})", cfg.name, s.depth_completed));
         }
         per_pool.insert(
             cfg.name.clone(),
-            json!({"depth_bound": depth, "depth_completed": s.depth_completed, "states": s.states, "transitions": s.transitions, "per_depth_new_states": s.per_depth_states, "alphabet": m.alphabet.len(), "capped": s.capped}),
+            json!({"depth_bound": depth, "depth_completed": s.depth_completed, "states": s.states, "transitions": s.transitions, "per_depth_new_states": s.per_depth_states, "alphabet": m.alphabet.len(), "capped": s.capped, "plan": plan}),
         );
         total.add(&s);
         probes += m.probes.load(Ordering::Relaxed);
